@@ -1,3 +1,231 @@
+import PB.Model.FsAtomic
+import PB.Model.FsWriters
 import PB.Drv.Loop
-/- Driver stub for C17 (model not built yet): every op is rejected. -/
-def main : IO Unit := PB.Drv.lineLoop (fun _ => "bad-op")
+/- Driver for C17: replays one recorded run of a writer through the file-system model.
+   run … · mk <path>|<entry> · dest … · sys <call> · end · readers · check · temps -/
+namespace PB.Drv.C17
+open PB.FsAtomic
+
+structure DS where
+  fs : FS := { inodes := [], names := [], fds := [] }
+  s0 : FS := { inodes := [], names := [], fds := [] }
+  dest : Path := []
+  kind : String := ""
+  old : Obs := none
+  new : Obs := none
+  tmpdirs : List Path := []
+  prefixes : List String := []
+  also : List Path := []
+  calls : List Call := []      -- reversed
+  results : List Res := []     -- reversed, the OBSERVED results (for the program acceptor)
+  haveDest : Bool := false
+  volOk : Bool := true
+
+def parsePath (s : String) : Path := s.splitOn "/"
+
+def octDigit (c : Char) : Option Nat :=
+  if '0' ≤ c ∧ c ≤ '7' then some (c.toNat - 48) else none
+
+def parseOct (s : String) : Option Nat :=
+  if s.isEmpty then none
+  else s.toList.foldl (fun acc c => match acc, octDigit c with
+    | some a, some d => some (a * 8 + d)
+    | _, _ => none) (some 0)
+
+def octStr (n : Nat) : String := String.ofList (Nat.toDigits 8 n)
+
+def parseSeg (s : String) : Option Seg :=
+  match s.splitOn ":" with
+  | [a, b, c] => match a.toNat?, b.toNat?, c.toNat? with
+    | some x, some y, some z => some { cid := x, off := y, len := z }
+    | _, _, _ => none
+  | _ => none
+
+def parseContent (s : String) : Option Content :=
+  if s = "-" then some []
+  else (s.splitOn "+").foldr (fun x acc => match parseSeg x, acc with
+    | some g, some l => some (g :: l)
+    | _, _ => none) (some [])
+
+def segStr (g : Seg) : String := s!"{g.cid}:{g.off}:{g.len}"
+
+def contentStr (c : Content) : String :=
+  if c.isEmpty then "-" else "+".intercalate (c.map segStr)
+
+/-- "f,<mode>,<content>" | "d,<mode>" | "l,<target>" -/
+def parseEntry (s : String) : Option Inode :=
+  match s.splitOn "," with
+  | ["f", m, c] => match parseOct m, parseContent c with
+    | some mode, some data => some { kind := .file, mode := mode, data := data, target := "", clean := true }
+    | _, _ => none
+  | ["d", m] => (parseOct m).map (fun mode => { kind := .dir, mode := mode, data := [], target := "", clean := true })
+  | ["l", t] => some { kind := .symlink, mode := 0o777, data := [], target := t, clean := true }
+  | _ => none
+
+/-- content-only entry: "f,<content>" | "d" | "l,<target>" -/
+def parseNode (s : String) : Option Node :=
+  match s.splitOn "," with
+  | ["f", c] => (parseContent c).map Node.file
+  | ["d"] => some .dir
+  | ["l", t] => some (.symlink t)
+  | _ => none
+
+/-- "-" | "f,<content>" | "l,<target>" | "d{rel|node;…}" -/
+def parseObs (s : String) : Option Obs :=
+  if s = "-" then some none
+  else if s.startsWith "d{" && s.endsWith "}" then
+    let inner := ((s.drop 2).dropEnd 1).toString
+    if inner.isEmpty then some (some (.dir, []))
+    else
+      let es := (inner.splitOn ";").foldr (fun x acc => match x.splitOn "|", acc with
+        | [p, n], some l => (parseNode n).map (fun nd => (parsePath p, nd) :: l)
+        | _, _ => none) (some [])
+      es.map (fun l => some (.dir, sortEntries l))
+  else (parseNode s).map (fun n => some (n, []))
+
+def entryStr (n : Inode) : String :=
+  match n.kind with
+  | .file => s!"f,{octStr n.mode},{contentStr n.data}"
+  | .dir => s!"d,{octStr n.mode}"
+  | .symlink => s!"l,{n.target}"
+
+def insertStr (x : String) : List String → List String
+  | [] => [x]
+  | y :: ys => if x < y then x :: y :: ys else y :: insertStr x ys
+
+def sortStrs (l : List String) : List String := l.foldr insertStr []
+
+def obsStr (s : FS) (dest : Path) : String :=
+  match lookup s.names dest with
+  | none => "-"
+  | some i =>
+    match inodeAt s i with
+    | none => "?"
+    | some n =>
+      if n.kind = .dir then
+        let sub := (s.names.filter (fun e => below dest e.1)).filterMap (fun e =>
+          (inodeAt s e.2).map (fun m => pathStr (e.1.drop dest.length) ++ "|" ++ entryStr m))
+        entryStr n ++ "{" ++ ";".intercalate (sortStrs sub) ++ "}"
+      else entryStr n
+
+def snapshot (s : FS) : String :=
+  ";".intercalate (sortStrs (s.names.filterMap (fun e => (inodeAt s e.2).map (fun m => pathStr e.1 ++ "|" ++ entryStr m))))
+
+def parseFlags (s : String) : Bool × Bool × Bool :=
+  let fs := s.splitOn "|"
+  (fs.contains "creat", fs.contains "excl", fs.contains "trunc")
+
+def parseFd (s : String) : Option (Option Nat) :=
+  if s = "fd=-" then some none
+  else if s.startsWith "fd=" then ((s.drop 3).toString.toNat?).map some
+  else none
+
+def parseCall (ws : List String) : Option Call :=
+  match ws with
+  | ["open", p, fl, m, fd] =>
+    match parseOct m, parseFd fd with
+    | some mode, some f => let (c, e, t) := parseFlags fl; some (.openC (parsePath p) c e t mode f)
+    | _, _ => none
+  | ["write", fd, g] => match fd.toNat?, parseSeg g with
+    | some f, some s => some (.write f s)
+    | _, _ => none
+  | ["fsync", fd] => fd.toNat?.map .fsync
+  | ["ftruncate", fd, n] => match fd.toNat?, n.toNat? with
+    | some f, some k => some (.ftruncate f k)
+    | _, _ => none
+  | ["fchmod", fd, m] => match fd.toNat?, parseOct m with
+    | some f, some k => some (.fchmod f k)
+    | _, _ => none
+  | ["close", fd] => fd.toNat?.map .close
+  | ["rename", a, b] => some (.rename (parsePath a) (parsePath b))
+  | ["unlink", p] => some (.unlink (parsePath p))
+  | ["rmdir", p] => some (.rmdir (parsePath p))
+  | ["mkdir", p, m] => (parseOct m).map (.mkdir (parsePath p))
+  | ["symlink", t, p] => some (.symlink t (parsePath p))
+  | ["chmod", p, m] => (parseOct m).map (.chmod (parsePath p))
+  | _ => none
+
+def kv (w : String) : Option (String × String) :=
+  match w.splitOn "=" with
+  | k :: v :: rest => some (k, "=".intercalate (v :: rest))
+  | _ => none
+
+/-- temporary, or (below) another file the same operation publishes (`also=`; it is the destination of its own scenario) -/
+def tmpPred (d : DS) : Path → Bool :=
+  fun p => isTemp d.tmpdirs d.dest.dropLast d.prefixes p || d.also.any (fun a => a.isPrefixOf p)
+
+def handle (d : DS) (line : String) : DS × String :=
+  match PB.Drv.words line with
+  | "run" :: _ => ({}, "ok")
+  | ["mk", e] =>
+    match e.splitOn "|" with
+    | [p, v] =>
+      match parseEntry v with
+      | some n =>
+        let i := d.fs.inodes.length
+        ({ d with fs := { d.fs with inodes := d.fs.inodes ++ [n], names := (parsePath p, i) :: d.fs.names } }, "ok")
+      | none => (d, "bad-op")
+    | _ => (d, "bad-op")
+  | "dest" :: p :: rest =>
+    let get (k : String) : String := ((rest.filterMap kv).lookup k).getD ""
+    match parseObs (get "old"), parseObs (get "new") with
+    | some o, some n =>
+      let td := ((get "tmpdirs").splitOn ",").filter (· ≠ "")
+      let pf := ((get "tmpname").splitOn ",").filter (· ≠ "")
+      let dp := parsePath p
+      let d1 : DS := { d with dest := dp, kind := get "kind", old := o, new := n }
+      let al := (((get "also").splitOn ",").filter (· ≠ "")).map parsePath
+      let d2 : DS := { d1 with tmpdirs := td.map parsePath, prefixes := pf, also := al, s0 := d.fs, calls := [], haveDest := true }
+      ({ d2 with volOk := allowed o n (vview d.fs dp) }, "ok")
+    | _, _ => (d, "bad-op")
+  | "sys" :: ws =>
+    if !d.haveDest then (d, "bad-op") else
+    match parseCall ws with
+    | none => (d, "bad-op")
+    | some c =>
+      let (fs', r) := exec d.fs c
+      ({ d with fs := fs', calls := c :: d.calls, results := r :: d.results, volOk := d.volOk && allowed d.old d.new (vview fs' d.dest) },
+        r.str ++ " " ++ obsStr fs' d.dest)
+  | ["end"] => if d.haveDest then (d, obsStr d.fs d.dest ++ " " ++ snapshot d.fs) else (d, "bad-op")
+  | ["readers"] => if d.haveDest then (d, if d.volOk then "ok" else "bad") else (d, "bad-op")
+  | ["check"] =>
+    if !d.haveDest then (d, "bad-op") else
+    let t := d.calls.reverse
+    let ok := if d.kind = "dir" then safePublishDir d.s0 d.dest d.old d.new t else safePublish d.s0 d.dest d.old d.new t
+    (d, if ok then "safe" else "unsafe")
+  | "prog" :: w :: rest =>
+    if !d.haveDest then (d, "bad-op") else
+    let get (k : String) : String := ((rest.filterMap kv).lookup k).getD ""
+    let t := d.calls.reverse
+    let chunks := t.filterMap (fun c => match c with | .write _ g => some g | _ => none)
+    let optdir : Option Path := if get "optdir" = "-" || get "optdir" = "" then none else some (parsePath (get "optdir"))
+    let tmpdir := parsePath (get "tmpdir")
+    let prog? : Option Prog :=
+      match w, parseOct (get "mode") with
+      | "writefile", some m => some (writeFileP tmpdir d.dest m chunks)
+      | "fstreeput", _ => some (fstreePutP tmpdir d.dest chunks)
+      | "createatomic", some m => some (createAtomicP optdir tmpdir d.dest m chunks (get "readfails" = "1"))
+      | "fetch", _ =>
+        -- the folders EnsureAbsPath walks: storage root (0755) and every directory down to the destination's
+        let storage := parsePath (get "storage")
+        let dirs := (List.range (d.dest.length - storage.length)).map (fun i => (d.dest.take (storage.length + i), 0o755))
+        some (fetchFileP dirs (storage ++ ["tmp"]) d.dest chunks (get "httpfails" = "1") (get "bodyfails" = "1"))
+      | "fileunpack", _ => optdir.map (fun od => fileUnpackP od tmpdir d.dest chunks (get "readfails" = "1"))
+      | "symlink", _ => some (symlinkP (get "target") d.dest)
+      | "nothing", _ => some (.ret true)
+      | _, _ => none
+    match prog? with
+    | none => (d, "bad-op")
+    | some p =>
+      match accepts p d.s0 (t.zip d.results.reverse) with
+      | none => (d, "reject")
+      | some none => (d, "ok ret=-")
+      | some (some f) => (d, if f then "ok ret=err" else "ok ret=ok")
+  | ["temps"] =>
+    if !d.haveDest then (d, "bad-op") else
+    (d, if onlyTemp d.dest (tmpPred d) d.calls.reverse then "ok" else "reject")
+  | _ => (d, "bad-op")
+
+end PB.Drv.C17
+
+def main : IO Unit := PB.Drv.runState ({} : PB.Drv.C17.DS) PB.Drv.C17.handle
